@@ -95,8 +95,10 @@ namespace Givaro {
     template<class Domain>
     std::istream& Poly1Dom<Domain,Dense>::read ( std::istream& i, Rep& P) const
     {
-        long deg;
+        long deg = -1;
         i >> deg;
+        if (!i) return i;                            // no degree (end of input, bad text): P is left alone
+        if (deg < 0) { P.resize(0); return i; }      // Degree(-1) is the degree of the zero polynomial
         init(P,Degree(deg));
         // JGD 18.09.2002
         for(;deg>=0;--deg)
